@@ -36,6 +36,7 @@ class Task:
         self.result = None
         self.pending_exc = None
         self.killed = False
+        self.in_yield = False
         self.ident = len(sched.tasks) + 1000
         self.thread = threading.Thread(target=self._run, name=f"sim-{name}", daemon=True)
 
@@ -256,12 +257,20 @@ class Sched:
             if _in_finalizer():
                 return True
             raise SimAbort()
+        if t.in_yield:
+            # a finalizer (Channel.__del__ sends a frame) ran while this task was already handing the baton back, i.e. inside the
+            # non-reentrant lock of a semaphore: it cannot wait for the baton (that is how the baton used to get lost)
+            return True
+        t.in_yield = True
         t.why = why
         t.cond = cond
         t.deadline = (self.now + timeout) if (timeout is not None and cond is not None) else None
         t.timed_out = False
-        self.ctl.release()
-        t.go.acquire()
+        try:
+            self.ctl.release()
+            t.go.acquire()
+        finally:
+            t.in_yield = False
         if self.aborting or t.killed:
             raise SimAbort()
         t.cond = None
@@ -303,7 +312,21 @@ class Sched:
             return False
 
     def run(self):
-        """Run until all tasks are done, nothing can move (stuck) or the step budget is exhausted."""
+        """Run until all tasks are done, nothing can move (stuck) or the step budget is exhausted.
+        The cyclic garbage collector is switched off for the duration: a collection may start at any allocation, also inside the
+        scheduler's own semaphores, and run Channel.__del__ there; reference counting still finalises dropped channels at once,
+        and the programs call gc.collect() where they drop something."""
+        import gc
+
+        was = gc.isenabled()
+        gc.disable()
+        try:
+            return self._run_loop()
+        finally:
+            if was:
+                gc.enable()
+
+    def _run_loop(self):
         while True:
             live = [t for t in self.tasks if not t.done]
             if not live:
